@@ -404,6 +404,34 @@ def check(ctx):
         empt = find_terms(b, tb_, lambda x: x[0] == 'call' and call_name(x) == 'is_empty' and is_V(x[2][0]))
         lens = find_terms(b, tb_, lambda x: (x[0] == 'call' and call_name(x) == 'len' and is_V(x[2][0])) or (x[0] == 'len' and is_V(x[1])))
         Vs = find_terms(b, tb_, lambda x: is_V(x))
+        if not Vs:
+            # no lookup of its own: `Ok(sibling(self, p)?.map(|a| object(subject(a))))` over a sibling single-result lookup with the same
+            # none / several behaviour, which is judged by its own table
+            sib_names = {'optional_object_for_predicate': ('optional_assertion_with_predicate',), 'optional_assertion_with_predicate': ()}.get(name, ())
+            okd, seen_ok = True, False
+            for bi, si, t in ret_defs(tb_):
+                st = strip_sites(t)
+                def sib_call(x):
+                    x = strip_sites(detry(x))
+                    return x[0] == 'call' and call_name(x) in sib_names and len(x[2]) == 2 and strip_sites(x[2][0]) == P1 and strip_sites(x[2][1]) == P2
+                if m_call(st, name='from_residual') is not None:
+                    okd &= any(isinstance(x, tuple) and x and x[0] == 'call' and sib_call(x) for x in walk(st))
+                    continue
+                v = st[3][0] if st[0] == 'agg' and st[2] == 'Ok' and st[3] else None
+                mp = m_call(strip_sites(detry(v)), name='map') if v is not None else None
+                good = False
+                if mp is not None and sib_call(mp[0]) and mp[1][0] == 'closure':
+                    cv = closure_value(mp[1], {('param', 2): ('param', 99)})
+                    cv = strip_sites(detry(cv)) if cv is not None else None
+                    u = m_call(cv, name='unwrap') or m_call(cv, name='expect') if cv is not None else None
+                    o = m_call(strip_sites(u[0]), name='as_object', self_suffix='Envelope') if u is not None else None
+                    sj = m_call(strip_sites(o[0]), name='subject', self_suffix='Envelope') if o is not None else None
+                    good = sj is not None and strip_sites(sj[0]) == ('param', 99)
+                okd &= good
+                seen_ok |= good
+            if okd and seen_ok:
+                ctx.ok('C15.5', ctx.site(b), '%s = %s(self, p)?.map(|a| object(subject(a))): the none / one / several behaviour is that of the sibling lookup (judged by its own table)' % (name, sib_names[0]))
+                return
         rows = {}
         for n in (0, 1, 2, 3):
             env = {}
